@@ -142,6 +142,7 @@ func main() {
 		for _, p := range []*pkgInfo{field, root} {
 			instrumentSched(p, *out, overlay, report)
 		}
+		report["functions"] = funcTable
 		addVirtual(*repo, *virt, "vsched", overlay)
 		addVirtual(*repo, *virt, "vsync", overlay)
 		addVirtual(*repo, *virt, "vsync/atomic", overlay)
@@ -688,6 +689,9 @@ func (p *pkgInfo) mentionsIn(n ast.Node, skipBodies bool, aliases map[types.Obje
 
 var mutableAll = map[*types.Var]bool{}
 
+// funcTable: function id -> name, for the execution-count profile.
+var funcTable []string
+
 // classifySched marks package-level variables (of any analysed package) that
 // some function body of p may write, directly or through a local alias.
 func classifySched(p *pkgInfo) {
@@ -878,6 +882,19 @@ func instrumentSched(p *pkgInfo, out string, overlay map[string]string, report m
 			if fd, ok := d.(*ast.FuncDecl); ok && fd.Body != nil {
 				curAliases = p.aliasesIn(fd.Body)
 				fd.Body.List = rewriteBlock(fd.Body.List)
+				// execution counter (not a scheduling point): work duplicated or
+				// skipped under some schedule shows up in the per-function profile
+				name := fd.Name.Name
+				if fd.Recv != nil && len(fd.Recv.List) > 0 {
+					name = types.ExprString(fd.Recv.List[0].Type) + "." + name
+				}
+				id := len(funcTable)
+				funcTable = append(funcTable, p.pkg.Name()+"."+name)
+				enter := &ast.ExprStmt{X: &ast.CallExpr{
+					Fun:  &ast.SelectorExpr{X: ast.NewIdent("vsched"), Sel: ast.NewIdent("Enter")},
+					Args: []ast.Expr{&ast.BasicLit{Kind: token.INT, Value: fmt.Sprint(id)}}}}
+				fd.Body.List = append([]ast.Stmt{enter}, fd.Body.List...)
+				usedSched = true
 			}
 		}
 		if usedSched {
